@@ -248,6 +248,7 @@ class BlockDiagNormal(ssm_impl_api.AbstractTreeNormal[BlockDiagTreeFlatten]):
     def from_mean_and_std(cls, mean, std):
         utilities.verify_taylor_coefficient_pytree(mean)
         utilities.verify_taylor_coefficient_pytree(std)
+        utilities.verify_taylor_coefficient_pytrees_match(mean, std)
 
         tree_flatten = BlockDiagTreeFlatten.from_example(mean)
 
